@@ -87,7 +87,10 @@ def run(ctx):
     from ..mirutil import recv_field
     ctx.rule("C06.2", "the tombstone sets of MemTable / L0Run are only ever added to (insert / extend) or moved whole into the frozen run")
     TOMB = {("tombstoned_nodes", S + "memtable::MemTable"), ("tombstoned_edges", S + "memtable::MemTable"),
-            ("tombstoned_nodes", S + "snapshot::L0Run"), ("tombstoned_edges", S + "snapshot::L0Run")}
+            ("tombstoned_nodes", S + "snapshot::L0Run"), ("tombstoned_edges", S + "snapshot::L0Run"),
+            # the sets a neighbour iterator accumulates while it walks the runs newest -> oldest: same monotonicity
+            ("blocked_nodes", S + "read_path_iters::NeighborsIter"), ("blocked_edges", S + "read_path_iters::NeighborsIter"),
+            ("blocked_nodes", S + "read_path_iters::IncomingNeighborsIter"), ("blocked_edges", S + "read_path_iters::IncomingNeighborsIter")}
     ADD = ("insert", "extend", "append")
     n2 = 0
     for i, b in sorted(F.bodies.items()):
@@ -111,4 +114,101 @@ def run(ctx):
             ctx.oblige(short in ADD, "C06.2", "%s:%s#%d" % (b.root or i, kk, k[kk]),
                        "a run's tombstone set shrinks (`%s`): the tombstone is what hides older runs' copies of the key, so dropping it "
                        "makes deleted nodes / relationships reappear in neighbour and node reads" % short, c.loc(), sample={"fn": i, "call": c.name})
-    ctx.floor("C06.2", "mutating calls on tombstone sets", n2, 2)
+    # whole-set replacement (`self.blocked_nodes = ...`) outside the constructor forgets what newer runs blocked
+    for i, b in sorted(F.bodies.items()):
+        if not i.startswith(S) or "::tests::" in i:
+            continue
+        k = 0
+        for blk in b.blocks:
+            if blk["c"]:
+                continue
+            for st in blk["s"]:
+                if st[0] != "a" or not st[1][1]:
+                    continue
+                last = st[1][1][-1]
+                if isinstance(last, list) and last[0] == "f" and (last[2], last[3]) in TOMB:
+                    n2 += 1
+                    ctx.instance("C06.2", "%s: assigns %s.%s (%s:%d)" % (i, last[3].split("::")[-1], last[2], b.file, st[3]))
+                    ctx.oblige(False, "C06.2", "%s:replaces(%s.%s)#%d" % (b.root or i, last[3].split("::")[-1], last[2], k),
+                               "a tombstone / blocked set is replaced as a whole instead of being added to: what newer runs had blocked (deleted nodes, "
+                               "deleted relationships) is forgotten and their relationships reappear in neighbour reads", "%s:%d" % (b.file, st[3]))
+                    k += 1
+    ctx.floor("C06.2", "mutating calls on tombstone sets", n2, 6)
+
+    keyed_by_rule(ctx, "C06.3")
+
+
+def keyed_by_rule(ctx, rid):
+    """shared by C06.3 and C14.4"""
+    F = ctx.facts
+    from ..mirutil import recv_field
+    # ---- clause 3: the adjacency maps are keyed by the right endpoint ----------------------------------------
+    # MemTable.out is keyed by the source of an edge and MemTable.in_ by its destination (create_edge defines that).  Every other access —
+    # a map method on the field, or a helper that receives the field together with a node id — must use the same endpoint, otherwise an edge
+    # is staged / unstaged in one direction only and outgoing and incoming reads disagree (a deleted relationship survives in `in_`).
+    from ..facts import op_local
+    from ..mirutil import value_root
+    ctx.rule(rid, "every access to MemTable.out uses the edge's source as key and every access to MemTable.in_ its destination")
+    WANT = {"out": "src", "in_": "dst"}
+    n3 = 0
+
+    def endpoint_of(b, l, depth=6):
+        """'src' / 'dst' when the node-id local derives from the parameter (or EdgeKey field) of that name"""
+        for _ in range(depth):
+            if l is None:
+                return None
+            nm = b.local_name(l)
+            if nm in ("src", "dst") and 1 <= l <= b.argc:
+                return nm
+            o = b.origin(l)
+            if o is None:
+                return None
+            if o[0] == "arg":
+                nm = b.local_name(o[1])
+                return nm if nm in ("src", "dst") else None
+            if o[0] == "place":
+                fs = [p_[2] for p_ in o[1][1] if isinstance(p_, list) and p_[0] == "f"]
+                if fs and fs[-1] in ("src", "dst"):
+                    return fs[-1]
+                l = o[1][0]
+                continue
+            return None
+        return None
+
+    for i, b in sorted(F.bodies.items()):
+        if not i.startswith(S + "memtable::MemTable::") or "::tests::" in i or b.root:
+            continue
+        k = 0
+        for c in b.calls():
+            fld = None
+            fidx = None
+            for ai in range(len(c.args)):
+                f_ = recv_field(b, c, ai)
+                if f_ and f_[1] == S + "memtable::MemTable" and f_[0] in WANT:
+                    fld, fidx = f_[0], ai
+                    break
+            if fld is None:
+                continue
+            # node-id arguments of the same call
+            ends = []
+            for ai, a in enumerate(c.args):
+                if ai == fidx:
+                    continue
+                l = op_local(a)
+                if l is None:
+                    continue
+                ty = b.local_ty(l)
+                if ty in ("u32", "&u32") or "InternalNodeId" in ty:
+                    e = endpoint_of(b, l)
+                    if e:
+                        ends.append(e)
+            if not ends:
+                continue
+            n3 += 1
+            ok = all(e == WANT[fld] for e in ends)
+            ctx.instance(rid, "%s: %s(%s) keyed by %s" % (i.split("::")[-1], c.name.split("::")[-1], fld, ends))
+            ctx.oblige(ok, rid, "%s:%s-keyed-by-%s#%d" % (i, fld, "+".join(ends), k),
+                       "MemTable.%s is accessed with the edge's %s (it is keyed by the %s): the edge is staged or unstaged in one direction only, so outgoing "
+                       "and incoming reads of the committed run disagree" % (fld, "/".join(ends), WANT[fld]), c.loc())
+            k += 1
+    ctx.floor(rid, "keyed accesses to the adjacency maps", n3, 4)
